@@ -8,7 +8,7 @@ repository or a mixture of old and new shards.  A run that reports success has i
 Quantifier: every filesystem mutation point of a build that replaces an existing index with one that has more, fewer
 or the same number of shards, including delta builds that rewrite metadata sidecars; plus failures of individual renames.
 -/
-import ZoektModel.C12.Lemmas
+import ZoektModel.C12.Success
 namespace ZoektModel.C12
 
 /-! ## old-or-new at every crash point: true exactly for the single-rename scenarios -/
@@ -89,6 +89,17 @@ theorem C12_fault_full_false : ¬ C12_fault_full := by
     revert this; decide
   · have := h.1 1
     revert this; decide
+
+/-! ## clauses that hold in every scenario -/
+
+/-- **C12 (success ⇒ installed)**: for every well-formed scenario, every iteration order and every set of failing
+    renames/removals, if `Finish` returns nil then the directory shows exactly the complete new index. -/
+theorem C12_success (s : Scn) (hwf : s.WF = true)
+    (ro : List (Path × Path)) (hro : ro.Perm (artifacts s))
+    (dord : List Path) (hd : dord.Perm (toDeleteAfter s ro)) (fails : Nat → Bool)
+    (hok : (finish s ro dord fails).2 = false) :
+    SameView (finalDir s ro dord fails) (newDir s) :=
+  success_sameView s hwf ro hro dord hd fails hok
 
 /-! ## non-vacuity -/
 
